@@ -211,7 +211,7 @@ class Ctx:
             seen = self._seen = set()
             self._nontriv = 0
         for r in records:
-            key = hashlib.blake2b(json.dumps([r.get("op"), r.get("in")], sort_keys=True).encode(), digest_size=8).digest()
+            key = hashlib.blake2b(json.dumps([r.get("op"), r.get("in"), r.get("obs")], sort_keys=True).encode(), digest_size=8).digest()
             if key not in seen:
                 seen.add(key)
                 if self.nontrivial is None or self.nontrivial(r):
